@@ -1034,12 +1034,14 @@ def run(ctx):
             "dense oracle harness/c07.py (dense_t, oracle_grads) and harness/opbuild.py (dense) with torch.autograd on plain "
             "tensors: used for triage and for the direct predicate only",
         ],
-        "evaluations": len(cases) + summ["n_comparisons"],
+        "evaluations": len(cases) + stats.get("matmul_backward_cases", 0) + summ["n_comparisons"],
         "distinct_nontrivial": len(keys) + summ["distinct_keys"],
         "rule": "part (a): one evaluation = one call op._bilinear_derivative(U, V) on one generated expression, compared in Coq "
                 "(exact, Z) with the model and in Python with autograd on the dense assembly; non-trivial = composite expression or "
                 "broadcast/expanded parameter; distinct by (class tree, batch kind, U/V batch kind, requires_grad pattern, number of "
-                "vectors).  part (b): one evaluation = one comparison of torch.autograd.grad through an entry point on the operator "
+                "vectors).  part (a2): one evaluation = one forward+backward of the real Matmul function with an integer "
+                "grad_output, rhs gradient compared in Coq with the model's matmul_backward and in Python with the dense oracle.  "
+                "part (b): one evaluation = one comparison of torch.autograd.grad through an entry point on the operator "
                 "and on the dense assembly; distinct by (class tree, entry point, argument kind, memory_efficient, max_cholesky_size, "
                 "requires_grad pattern, batch shape)",
         "bilinear_cases": len(cases), "bilinear_cells": len(cell_list), "bilinear_skipped": skipped,
